@@ -19,12 +19,17 @@ func parseLoadFile94(reader io.Reader, coresize Address) (WarriorData, error) {
 
 	lineNum := 0
 	breader := bufio.NewReader(reader)
-	for {
-		// empty lines and last lines without newlines seem to be missed
-		// should something else be used? or are these not worth handling?
+	atEOF := false
+	for !atEOF {
 		raw_line, err := breader.ReadString('\n')
 		if err != nil {
-			break
+			// ReadString returns a last line that lacks its newline
+			// together with io.EOF: read it like any other line
+			if len(raw_line) == 0 {
+				break
+			}
+			raw_line += "\n"
+			atEOF = true
 		}
 		lineNum++
 
@@ -275,12 +280,17 @@ func parseLoadFile88(reader io.Reader, coresize Address) (WarriorData, error) {
 
 	lineNum := 0
 	breader := bufio.NewReader(reader)
-	for {
-		// empty lines and last lines without newlines seem to be missed
-		// should something else be used? or are these not worth handling?
+	atEOF := false
+	for !atEOF {
 		raw_line, err := breader.ReadString('\n')
 		if err != nil {
-			break
+			// ReadString returns a last line that lacks its newline
+			// together with io.EOF: read it like any other line
+			if len(raw_line) == 0 {
+				break
+			}
+			raw_line += "\n"
+			atEOF = true
 		}
 		lineNum++
 
